@@ -19,6 +19,8 @@ type flavour struct {
 
 var identityEvents = map[string]bool{"swap": true, "move": true, "reshape": true}
 
+func bytesEq(a, b []byte) bool { return string(a) == string(b) }
+
 func hasCidAccess(a string) bool { return a == "relay82" || a == "l2opt82" }
 
 func genCid(t *rapid.T, label string, idx int) hexb {
@@ -198,11 +200,12 @@ func genMsg(t *rapid.T, label string, k int, kind string, c int) op {
 	return o
 }
 
-// dora: DISCOVER then REQUEST for the offered address, large enough option areas that the server-side
-// state is what matters (the frames of these set-up messages are probes as well).
+// dora: DISCOVER then REQUEST for the offered address (the frames of these set-up messages are probes as
+// well); both parse in userspace, so that the history reaches the state it is built for.
 func genDORA(t *rapid.T, label string, k, c int) []op {
 	d := genMsg(t, label+"D.", k, "discover", c)
 	r := genMsg(t, label+"R.", k, "request", c)
+	d.NoEnd, r.NoEnd = false, false
 	r.Addr = "own"
 	if r.Shape == "renewing" {
 		r.Shape = "selecting"
@@ -210,51 +213,225 @@ func genDORA(t *rapid.T, label string, k, c int) []op {
 	return []op{d, r}
 }
 
+// family: client b and every other appearance of it.
+func family(c caseCfg, b int) []int {
+	f := []int{b}
+	for i, cl := range c.Clients {
+		if cl.Rel != "" && cl.Of == b {
+			f = append(f, i)
+		}
+	}
+	return f
+}
+
+func related(c caseCfg, b int, rel string) int {
+	for i, cl := range c.Clients {
+		if cl.Rel == rel && cl.Of == b {
+			return i
+		}
+	}
+	return -1
+}
+
+// genSweep: one or two probes from EVERY appearance of a client (old and new MAC, old and new circuit-id,
+// VLAN pair), shaped so that the fast path can answer if it holds an entry: option 53 where the program
+// looks for it, an options area the reply fits in, option 82 once where the program finds it (the
+// circuit-id entry decides) and once where it does not (the MAC entry decides).
+func genSweep(t *rapid.T, label string, c caseCfg, fam []int) []op {
+	var ops []op
+	k := len(c.Clients)
+	rot := rapid.IntRange(0, len(fam)-1).Draw(t, label+"rot")
+	for j := range fam {
+		p := fam[(j+rot)%len(fam)]
+		l := fmt.Sprintf("%ssw%d.", label, p)
+		o := genMsg(t, l, k, pick(t, l+"kind", "discover", "discover", "request"), p)
+		o.Layout = pick(t, l+"lay", 0, 0, 0, 1, 2, 3, 4, 5)
+		o.Area = pick(t, l+"ar", 100, 100, 64, 65, 200, 300, 312)
+		o.NoEnd = false
+		if o.Kind == "request" {
+			o.Addr, o.Shape = "own", "renewing" // the one REQUEST the fast path answers itself
+		}
+		if len(o.Vars) > 2 {
+			o.Vars = o.Vars[:2]
+		}
+		if !hasCidAccess(c.Clients[p].Access) {
+			ops = append(ops, o)
+			continue
+		}
+		fixed := pick(t, l+"p82", 0, 0, 12, 13, 14, 15, 16, 17, 18, 19)
+		switch pick(t, l+"both", 0, 1, 2, 2) {
+		case 0:
+			o.P82 = fixed
+			ops = append(ops, o)
+		case 1:
+			o.P82 = -1
+			ops = append(ops, o)
+		default:
+			o2 := o
+			o.P82, o2.P82 = -1, fixed
+			o2.Vars = o2.Vars[:1]
+			ops = append(ops, o, o2)
+		}
+	}
+	return ops
+}
+
 func genCase(t *rapid.T, fl flavour) tcase {
 	tc := tcase{Name: fl.name, Cfg: genCfg(t, fl)}
-	k := len(tc.Cfg.Clients)
-	lease := tc.Cfg.LeaseS
+	cfg := tc.Cfg
+	k := len(cfg.Clients)
+	var bases []int
+	for i, cl := range cfg.Clients {
+		if cl.Rel == "" {
+			bases = append(bases, i)
+		}
+	}
+	lease := cfg.LeaseS
+	add := func(ops ...op) { tc.Ops = append(tc.Ops, ops...) }
 	// every client gets a lease first with high probability (the cache entry is what the property is about)
-	for c := 0; c < k; c++ {
+	for _, c := range bases {
 		if c == 0 || chance(t, fmt.Sprintf("dora%d", c), 3, 4) {
-			tc.Ops = append(tc.Ops, genDORA(t, fmt.Sprintf("s%d.", c), k, c)...)
+			add(genDORA(t, fmt.Sprintf("s%d.", c), k, c)...)
 		}
 	}
 	probeKinds := func(label string, c int, n int) {
 		for i := 0; i < n; i++ {
 			kind := pick(t, fmt.Sprintf("%sp%d.kind", label, i), "discover", "request", "request")
-			tc.Ops = append(tc.Ops, genMsg(t, fmt.Sprintf("%sp%d.", label, i), k, kind, c))
+			add(genMsg(t, fmt.Sprintf("%sp%d.", label, i), k, kind, c))
 		}
 	}
 	advance := func(label string) op {
 		return op{Kind: "advance", Secs: pick(t, label+"secs", 1, 30, lease/2, lease-1, lease+1, lease+1, lease+61, 2*lease+5)}
+	}
+	sure := func(o op) op { o.NoEnd = false; return o }
+	// takeover: appearance p takes the client's lease over from whatever appearance holds it now
+	takeover := func(l string, p int) {
+		if chance(t, l+"dora", 1, 2) || cfg.Clients[p].Rel == "cpe-swap" {
+			add(genDORA(t, l+"t.", k, p)...)
+			return
+		}
+		r := sure(genMsg(t, l+"t.", k, "request", p))
+		r.Addr = "own"
+		add(r)
+	}
+	event := func(l string, ev string, b int) {
+		fam := family(cfg, b)
+		switch ev {
+		case "release", "decline":
+			// sent by any appearance that shares the MAC (a RELEASE need not look like the REQUEST that made the lease)
+			who := b
+			if p := fam[rapid.IntRange(0, len(fam)-1).Draw(t, l+"who")]; bytesEq(cfg.Clients[p].MAC, cfg.Clients[b].MAC) {
+				who = p
+			}
+			add(genMsg(t, l+"e.", k, ev, who))
+			if len(fam) > 1 && chance(t, l+"sweep", 1, 2) {
+				add(genSweep(t, l+"a.", cfg, fam)...)
+			} else {
+				probeKinds(l, b, rapid.IntRange(1, 3).Draw(t, l+"nprobe"))
+			}
+		case "expiry":
+			add(op{Kind: "advance", Secs: lease + pick(t, l+"over", 1, 1, 30, 61, lease)})
+			probeKinds(l+"u.", b, rapid.IntRange(0, 2).Draw(t, l+"nprobe1"))
+			add(op{Kind: "cleanup"})
+			if len(fam) > 1 && chance(t, l+"sweep", 1, 2) {
+				add(genSweep(t, l+"a.", cfg, fam)...)
+			} else {
+				probeKinds(l+"c.", b, rapid.IntRange(1, 3).Draw(t, l+"nprobe2"))
+			}
+		case "swap", "move", "reshape":
+			p := related(cfg, b, map[string]string{"swap": "cpe-swap", "move": "circuit-move", "reshape": "reshape"}[ev])
+			if ev == "swap" {
+				// the old device may have gone properly (RELEASE, or its lease ran out) before the new one is plugged in
+				switch pick(t, l+"pre", "", "", "", "", "", "release", "expire") {
+				case "release":
+					add(sure(genMsg(t, l+"pre.", k, "release", b)))
+				case "expire":
+					add(op{Kind: "advance", Secs: lease + pick(t, l+"preover", 1, 61)}, op{Kind: "cleanup"})
+				}
+			}
+			takeover(l, p)
+			add(genSweep(t, l+"a.", cfg, fam)...)
+			if chance(t, l+"back", 1, 3) {
+				takeover(l+"back.", b)
+				add(genSweep(t, l+"b.", cfg, fam)...)
+			}
+		case "retire":
+			// the lease runs out and the client comes back with a DISCOVER before the cleanup tick: the lease is retired on the spot
+			p := fam[rapid.IntRange(0, len(fam)-1).Draw(t, l+"who")]
+			if cfg.Clients[p].Rel == "cpe-swap" {
+				p = b
+			}
+			add(op{Kind: "advance", Secs: lease + pick(t, l+"over", 1, 1, 30, 59, lease)})
+			add(sure(genMsg(t, l+"d.", k, "discover", p)))
+			add(genSweep(t, l+"a.", cfg, fam)...)
+			r := sure(genMsg(t, l+"r.", k, "request", p))
+			r.Addr = "own"
+			add(r)
+			if chance(t, l+"again", 1, 2) {
+				add(genSweep(t, l+"b.", cfg, fam)...)
+			}
+		case "release-offered":
+			// RELEASE of an address that was only offered
+			if chance(t, l+"first", 2, 3) {
+				add(sure(genMsg(t, l+"rel.", k, "release", b)))
+			} else {
+				add(op{Kind: "advance", Secs: lease + 61}, op{Kind: "cleanup"})
+			}
+			add(sure(genMsg(t, l+"d.", k, "discover", b)))
+			add(sure(genMsg(t, l+"ro.", k, "release", b)))
+			add(genSweep(t, l+"a.", cfg, fam)...)
+		}
+	}
+	evKinds := []string{"release", "decline", "expiry", "retire", "release-offered"}
+	possible := func(ev string, b int) bool {
+		switch ev {
+		case "swap":
+			return related(cfg, b, "cpe-swap") >= 0
+		case "move":
+			return related(cfg, b, "circuit-move") >= 0
+		case "reshape":
+			return related(cfg, b, "reshape") >= 0
+		}
+		return true
+	}
+	drawEvent := func(l string) {
+		b := bases[rapid.IntRange(0, len(bases)-1).Draw(t, l+"c")]
+		ev := fl.event
+		if identityEvents[ev] || ev == "retire" || ev == "release-offered" {
+			b = 0 // the flavour's own event is built around client 0 (which has the appearance it needs)
+			if !chance(t, l+"own", 2, 3) {
+				ev = ""
+			}
+		}
+		if ev == "" {
+			cand := append([]string{}, evKinds...)
+			for _, e := range []string{"swap", "move", "reshape"} {
+				if possible(e, b) {
+					cand = append(cand, e, e)
+				}
+			}
+			ev = pick(t, l+"event", cand...)
+		}
+		if !possible(ev, b) {
+			ev = "release"
+		}
+		event(l, ev, b)
+	}
+	if identityEvents[fl.event] || fl.event == "retire" || fl.event == "release-offered" {
+		event("ev0.", fl.event, 0)
 	}
 	n := rapid.IntRange(2, 7).Draw(t, "nbody")
 	for i := 0; i < n; i++ {
 		l := fmt.Sprintf("b%d.", i)
 		switch pick(t, l+"what", "msg", "msg", "msg", "msg", "event", "advance", "cleanup") {
 		case "msg":
-			tc.Ops = append(tc.Ops, genMsg(t, l, k, "", -1))
+			add(genMsg(t, l, k, "", -1))
 		case "advance":
-			tc.Ops = append(tc.Ops, advance(l))
+			add(advance(l))
 		case "cleanup":
-			tc.Ops = append(tc.Ops, op{Kind: "cleanup"})
+			add(op{Kind: "cleanup"})
 		case "event":
-			c := rapid.IntRange(0, k-1).Draw(t, l+"c")
-			ev := fl.event
-			if ev == "" {
-				ev = pick(t, l+"event", "release", "decline", "expiry")
-			}
-			switch ev {
-			case "release", "decline":
-				tc.Ops = append(tc.Ops, genMsg(t, l+"e.", k, ev, c))
-				probeKinds(l, c, rapid.IntRange(1, 3).Draw(t, l+"nprobe"))
-			case "expiry":
-				tc.Ops = append(tc.Ops, op{Kind: "advance", Secs: lease + pick(t, l+"over", 1, 1, 30, 61, lease)})
-				probeKinds(l+"u.", c, rapid.IntRange(0, 2).Draw(t, l+"nprobe1"))
-				tc.Ops = append(tc.Ops, op{Kind: "cleanup"})
-				probeKinds(l+"c.", c, rapid.IntRange(1, 3).Draw(t, l+"nprobe2"))
-			}
+			drawEvent(l)
 		}
 	}
 	return tc
